@@ -220,7 +220,7 @@ def describe(rep):
     rep.assume('numpy tofile/fromfile write/read exactly nbytes at the handle position (environment stub contract)',
                'os.path.getsize returns the byte length; a crash leaves a prefix of the bytes of the interrupted write',
                'file system offsets are mathematical integers')
-    rep.out_of_scope('MPI-IO paths (need mpi4py)', 'toVTR', 'the LogToFile hook beyond its FieldsIO calls', 'Rectilinear with symbolic grid (concrete grids only)')
+    rep.out_of_scope('MPI-IO paths (need mpi4py)', 'toVTR', 'LogToFile beyond the enumerated scenarios (time_increment > 0, spectral problems)', 'Rectilinear with symbolic grid (concrete grids only)')
 
 
 def tasks(tier, seed):
@@ -229,6 +229,7 @@ def tasks(tier, seed):
         T.append(('times', k))
     T.append(('blocks',))
     T.append(('blocks_enum',))
+    T.append(('logtofile',))
     T.append(('bits',))
     T.append(('realcrash',))
     return T
@@ -239,6 +240,8 @@ def run_task(rep, task):
         cm.xhair_task(rep, PID, 'crosshair/c16_blocks.py', timeout_s=60 if rep.tier == 'quick' else 240)
     elif task[0] == 'blocks_enum':
         blocks_enum_case(rep)
+    elif task[0] == 'logtofile':
+        logtofile_case(rep)
         return
     if task[0] == 'bits':
         return bits_case(rep)
@@ -877,6 +880,97 @@ def realcrash_case(rep):
                 rep.violation(f'{PID}/{key}', f'real Scalar file nVar={nVar}, {k} records, append cut after {c} bytes: {bad}',
                               {'task': ['realcrash'], 'nVar': nVar, 'k': k, 'c': c, 'violated': bad, 'observed': {k_: str(v) for k_, v in res.items()}})
                 break
+
+
+def logtofile_case(rep):
+    """the shipped LogToFile hook on real files (ENUMERATED scenarios, concrete): what a run writes is read back bit for bit, a continued run appends, and
+    an existing file is never re-created unless the hook class that does the writing enables overwriting -- whatever other hook classes of the process say"""
+    from pySDC.implementations.hooks.log_solution import LogToFile
+    from pySDC.implementations.controller_classes.controller_nonMPI import controller_nonMPI
+    from pySDC.implementations.problem_classes.TestEquation_0D import testequation0d
+    from pySDC.implementations.sweeper_classes.generic_implicit import generic_implicit
+
+    class OutProb(testequation0d):
+        def setUpFieldsIO(self):
+            pass
+
+        def getOutputFile(self, fileName):
+            f = fio.Scalar(np.complex128, fileName)
+            f.setHeader(nVar=self.lambdas.size)
+            f.initialize()
+            return f
+
+        def processSolutionForOutput(self, u):
+            return np.array(u, dtype=np.complex128)
+
+    d = tempfile.mkdtemp(prefix='c16l_', dir='/dev/shm' if os.path.isdir('/dev/shm') else None)
+    saved = (LogToFile.allow_overwriting, fio.FieldsIO.ALLOW_OVERWRITE)
+
+    def run(hook, t0, nsteps, u0val=1.0):
+        desc = dict(problem_class=OutProb, problem_params={'lambdas': np.array([-1.0, -2.0j]), 'u0': u0val}, sweeper_class=generic_implicit,
+                    sweeper_params={'num_nodes': 2, 'quad_type': 'RADAU-RIGHT'}, level_params={'dt': 0.125, 'restol': -1}, step_params={'maxiter': 2})
+        ctl = controller_nonMPI(1, {'logger_level': 50, 'dump_setup': False, 'hook_class': [hook]}, desc)
+        P = ctl.MS[0].levels[0].prob
+        u0 = P.u_exact(0)
+        return ctl.run(u0, t0, t0 + 0.125 * nsteps)
+
+    try:
+        class Plain(LogToFile):
+            filename = os.path.join(d, 'plain.pySDC')
+
+        # 1. a run writes the initial value and every step; the file returns them bit for bit
+        uend, _ = run(Plain, 0.0, 3)
+        f = fio.FieldsIO.fromFile(Plain.filename)
+        ok = f.nFields == 4 and f.times == [0.0, 0.125, 0.25, 0.375] and f.readField(-1)[1].tobytes() == np.array(uend, dtype=np.complex128).tobytes() and f.readField(0)[1].tobytes() == np.ones(2, dtype=np.complex128).tobytes()
+        rep.side('logtofile/round-trip', ok, {'times': f.times})
+        before = open(Plain.filename, 'rb').read()
+        # 2. a second run from t0 = 0 on the existing file is refused and leaves the file byte-identical
+        refused = False
+        try:
+            run(Plain, 0.0, 2, u0val=2.0)
+        except FileExistsError:
+            refused = True
+        except Exception as e:
+            refused = type(e).__name__
+        rep.side('logtofile/existing-file-not-overwritten', refused is True and open(Plain.filename, 'rb').read() == before, {'refused': refused})
+        # 3. a continued run (t0 > 0) appends behind the existing records
+        run(Plain, 0.375, 2)
+        f = fio.FieldsIO.fromFile(Plain.filename)
+        rep.side('logtofile/continued-run-appends', f.nFields == 6 and open(Plain.filename, 'rb').read()[: len(before)] == before, {'nFields': f.nFields})
+        # 4. overwriting enabled on ANOTHER hook class of the process (the stock class) does not unlock a class that keeps it disabled
+        before = open(Plain.filename, 'rb').read()
+        LogToFile.allow_overwriting = True
+
+        class Protected(LogToFile):
+            filename = Plain.filename
+            allow_overwriting = False
+
+        refused = False
+        try:
+            run(Protected, 0.0, 2, u0val=2.0)
+        except FileExistsError:
+            refused = True
+        except Exception as e:
+            refused = type(e).__name__
+        rep.side('logtofile/existing-file-not-overwritten/other-class-allows-overwriting', refused is True and open(Plain.filename, 'rb').read() == before, {'refused': refused})
+        LogToFile.allow_overwriting = saved[0]
+
+        # 5. overwriting enabled on the class that writes: the file is re-created
+        class Over(LogToFile):
+            filename = Plain.filename
+            allow_overwriting = True
+
+        run(Over, 0.0, 1, u0val=2.0)
+        f = fio.FieldsIO.fromFile(Plain.filename)
+        rep.side('logtofile/overwriting-enabled-recreates', f.nFields == 2 and f.readField(0)[1].tobytes() == (2 * np.ones(2, dtype=np.complex128)).tobytes(), {'nFields': f.nFields})
+        rep.translator += 5
+    except Exception as e:
+        rep.side('logtofile/scenarios-run', False, f'{type(e).__name__}: {e}')
+    finally:
+        LogToFile.allow_overwriting, fio.FieldsIO.ALLOW_OVERWRITE = saved
+        import shutil
+
+        shutil.rmtree(d, ignore_errors=True)
 
 
 def blocks_enum_case(rep):
